@@ -238,11 +238,36 @@ def run_case(case, res):
                   "GlobalBalancedRombergGrid weights differ from BalancedExtrapolationGrid", cfg)
     elif gen == "fulltree":
         t = E.GridBinaryTree()
+        # GridBinaryTree is a process-wide singleton (its result cache cannot be switched on through the public constructor)
         with quiet:
+            # the singleton served other trees before (a perfect tree grown level by level, an ancestor or a variant of the observed tree)
+            for _ in range(rng.choice([0, 1, 2])):
+                hm = rng.random()
+                if hm < 0.3:
+                    t.init_perfect_tree_with_max_level(a, b, rng.randint(1, 4))
+                    if rng.random() < 0.5:
+                        t.increment_level_in_each_subtree()
+                    t.get_grid()
+                else:
+                    hx, hl = trees.ancestor(rng, list(xs), list(lv)) if hm < 0.65 else trees.variant(rng, list(xs), list(lv))
+                    t.init_tree([float(x) for x in hx], [int(x) for x in hl])
+                    if rng.random() < 0.6:
+                        t.force_full_tree_invariant()
+                    t.get_grid()
+                    t.get_grid_levels()
+                res.count("history_steps")
             t.init_tree(list(xs), list(lv))
+            if rng.random() < 0.3:
+                g_before = [float(x) for x in t.get_grid()]
+                res.check("tree_roundtrip", g_before == [float(x) for x in xs] and [int(x) for x in t.get_grid_levels()] == [int(x) for x in lv],
+                          "C11_tree_roundtrip", "init_tree followed by get_grid / get_grid_levels does not return the given grid", cfg)
             t.force_full_tree_invariant()
             gx = [float(x) for x in t.get_grid()]
             gl = [int(x) for x in t.get_grid_levels()]
+            gx2 = [float(x) for x in t.get_grid()]
+            gl2 = [int(x) for x in t.get_grid_levels()]
+        res.check("full_tree_repeated_readout", gx2 == gx and gl2 == gl, "C11_full_tree_second_readout_differs",
+                  "a second get_grid / get_grid_levels on the forced full tree returns something else", cfg)
         d0 = dict(zip(xs, lv))
         d1 = dict(zip(gx, gl))
         res.check("full_tree_superset", all(x in d1 and d1[x] == l for x, l in d0.items()) and gx == sorted(gx) and len(d1) == len(gx),
